@@ -49,9 +49,11 @@ def _used_names(ops):
         k = o[0]
         if k in ("minimize", "maximize", "evaluate"):
             exprs.add(o[2])
+        elif k == "redeclare":
+            exprs.add(o[4])
         elif k == "subject_to":
             cons.add(o[2])
-        elif k == "subject_to_list":
+        elif k in ("subject_to_list", "subject_to_bad"):
             cons.update(o[2])
         elif k == "compile":
             a = o[4]
@@ -66,7 +68,7 @@ def prune_pools(case):
     c = copy.deepcopy(case)
     exprs, cons = _used_names(c["ops"])
     for op in c["ops"]:
-        if op[0] == "new_model":
+        if op[0] in ("new_model", "redeclare"):
             sp = op[2]
             sp["exprs"] = {k: v for k, v in sp.get("exprs", {}).items() if k in exprs}
             sp["cons"] = {k: v for k, v in sp.get("cons", {}).items() if k in cons}
